@@ -24,6 +24,10 @@ def isDecimalIn (lo hi : Nat) (p : Str) : Bool :=
 
 def isPortDecimal (p : Str) : Bool := isDecimalIn 1 65535 p
 
+def lowerByte (c : Char) : Char := if isUpper c then Char.ofNat (c.toNat + 32) else c
+
+def hasUnixPrefix (s : Str) : Bool := (s.take 5).map lowerByte == "unix:".toList
+
 /-- `<host>:<port>`: host a dotted IPv4 address or a DNS-1123 subdomain, or `[<IPv6>]:<port>` -/
 def docEndpoint (s : Str) : Bool :=
   match s with
@@ -38,8 +42,10 @@ def docEndpoint (s : Str) : Bool :=
       | some (h, p) => (isV4 h || isDNS1123Subdomain h) && isPortDecimal p
       | none => false
 
-/-- the optional-port flags also take a bare IPv4 address or DNS name -/
-def docEndpointOpt (s : Str) : Bool := docEndpoint s || isV4 s || isDNS1123Subdomain s
+/-- the optional-port flags also take a bare IPv4 address, DNS name or IPv6 address; `unix:<port>` is
+excluded on purpose (NGINX reads it as a unix socket) -/
+def docEndpointOpt (s : Str) : Bool :=
+  (docEndpoint s && !hasUnixPrefix s) || isV4 s || isDNS1123Subdomain s || (s.contains ':' && isV6 s)
 
 def documentedDomain : Str := "gateway.nginx.org".toList
 
@@ -84,10 +90,6 @@ def ngxInet6Url (rest : Str) : Bool :=
       | [] => true
       | a :: p => a == ':' && ngxPortOK p) && isV6 h
 
-def lowerByte (c : Char) : Char := if isUpper c then Char.ofNat (c.toNat + 32) else c
-
-def hasUnixPrefix (s : Str) : Bool := (s.take 5).map lowerByte == "unix:".toList
-
 /-- the value is an `address[:port]` in the sense of `ngx_parse_url` (what `resolver` requires) -/
 def nginxAddrOk (s : Str) : Bool :=
   if hasUnixPrefix s then false
@@ -95,8 +97,8 @@ def nginxAddrOk (s : Str) : Bool :=
     | [] => false
     | c :: rest => if c == '[' then ngxInet6Url rest else ngxInetUrl s
 
-/-- the candidate repair of the generator: a bare IPv6 address is rendered between brackets -/
-def bracketV6 (v : Str) : Str := if v.contains ':' && parseIP v then '[' :: (v ++ [']']) else v
+/-- a bare IPv6 address between brackets (what the generator does since 15df172) -/
+def bracketV6 (v : Str) : Str := nginxAddr v
 
 /-- the classes of accepted optional-port values that are not NGINX addresses (the known findings);
 `none` = the value is in none of them -/
